@@ -1,6 +1,8 @@
 (* C11 — the ternary form of the trrel provider (TrRel2IndCommon): the per-key map is the binary provider
    key by key (tmerge_per_key, trun_per_key); what the reverse-map views return (tv_i1_get1_spec, ..),
-   and the refutation of law P4 for the delta version read through reverse_map1/2 (finding F4). *)
+   exact for total and — since commit 0ce9ae6, which rebuilds delta's reverse maps from the new delta — for delta;
+   the behaviour before that commit (law P4 failed for delta read through reverse_map1/2, former finding F4) is kept
+   as a statement about the model with rebuild = false. *)
 From Coq Require Import List ZArith Bool Lia.
 From AV Require Import Byods.TrRelModel.
 From AV Require Import Byods.TrRelProofs.
@@ -262,11 +264,11 @@ Record twf (st : tstate) : Prop := {
   wf_new : kwf (t_map (t_new st)); wf_delta : kwf (t_map (t_delta st)); wf_total : kwf (t_map (t_total st)) }.
 
 (* per-key lifting of the merge: on every key the ternary merge IS the binary merge of that key's slices *)
-Theorem tmerge_per_key b h st st' :
-  twf st -> tmerge b h st = Some st' ->
+Theorem tmerge_gen_per_key b h rb st st' :
+  twf st -> tmerge_gen b h rb st = Some st' ->
   twf st' /\ forall k, bmerge b (slice k st) = Some (slice k st').
 Proof.
-  intros [W1 W2 W3] H. unfold tmerge in H.
+  intros [W1 W2 W3] H. unfold tmerge_gen in H.
   destruct (tmerge_delta_keys b (t_map (t_delta st)) (t_map (t_new st)) (t_map (t_total st)) []) as [[[nm tm] ndm]|] eqn:L1; [|discriminate].
   destruct (tmerge_new_keys b nm tm ndm) as [[tm' ndm']|] eqn:L2; [|discriminate].
   inversion H; subst st'; clear H.
@@ -300,6 +302,11 @@ Proof.
       unfold kget at 1. rewrite <- E3. rewrite bmerge_idle. f_equal.
       unfold kget. rewrite E5, E2, E4, E1. reflexivity.
 Qed.
+
+Theorem tmerge_per_key b h st st' :
+  twf st -> tmerge b h st = Some st' ->
+  twf st' /\ forall k, bmerge b (slice k st) = Some (slice k st').
+Proof. exact (tmerge_gen_per_key b h true st st'). Qed.
 
 (* ------------------------------------------------------------------ insertion and restart, key by key *)
 
@@ -508,22 +515,235 @@ Proof.
     + apply filter_In. split; [apply rev_keys_In; exact H1|]. apply existsb_exists. exists k. split; [apply rev_keys_In; exact H2 | apply Z.eqb_refl].
 Qed.
 
-(* ------------------------------------------------------------------ finding F4: law P4 fails for the delta version
-   read through reverse_map1 / reverse_map2 *)
+(* ------------------------------------------------------------------ the reverse maps along histories (both present) *)
+
+Lemma padd_spec p q l : In q (padd p l) <-> q = p \/ In q l.
+Proof.
+  unfold padd. destruct (pmem p l) eqn:E.
+  - apply pmem_spec in E. split; [auto | intros [->|?]; assumption].
+  - rewrite in_app_iff. cbn. intuition.
+Qed.
+
+Lemma punion_spec from : forall to q, In q (punion from to) <-> In q from \/ In q to.
+Proof.
+  unfold punion. induction from as [|p from IH]; intros to q; cbn [fold_left In]; [tauto|].
+  rewrite IH, padd_spec. intuition.
+Qed.
+
+Lemma klookup_In k c m : klookup k m = Some c -> In (k, c) m.
+Proof.
+  induction m as [|[k0 c0] m IH]; cbn; [discriminate|]. destruct (k0 =? k) eqn:E.
+  - apply Z.eqb_eq in E. intros H; inversion H; subst. left; reflexivity.
+  - intros H. right. apply IH. exact H.
+Qed.
+
+Lemma kwf_In_klookup k c m : kwf m -> In (k, c) m -> klookup k m = Some c.
+Proof.
+  unfold kwf. induction m as [|[k0 c0] m IH]; cbn; [intros _ []|]. intros ND [E|H].
+  - inversion E; subst. rewrite Z.eqb_refl. reflexivity.
+  - inversion ND; subst. destruct (k0 =? k) eqn:E; [|apply IH; assumption].
+    apply Z.eqb_eq in E. subst k0. exfalso. apply H2. apply (in_map fst) in H. exact H.
+Qed.
+
+(* the rebuilt reverse maps register exactly the (column value, key) pairs of the map they are built from *)
+Lemma rebuild1_spec m x k : kwf m -> (In (x, k) (rebuild1 m) <-> exists y, In (x, y) (kget k m)).
+Proof.
+  intros W. unfold rebuild1. rewrite in_flat_map. split.
+  - intros [[k0 c] [Hm H]]. apply in_map_iff in H. destruct H as [x0 [E Hx]]. cbn in E. inversion E; subst.
+    cbn [fst snd] in Hx. rewrite zdedup_In in Hx. apply in_map_iff in Hx. destruct Hx as [[x1 y] [E1 Hp]]. cbn in *. subst x1.
+    exists y. unfold kget. rewrite (kwf_In_klookup _ _ _ W Hm). exact Hp.
+  - intros [y Hy]. unfold kget in Hy. destruct (klookup k m) as [c|] eqn:L; [|destruct Hy].
+    exists (k, c). split; [apply klookup_In; exact L|]. apply in_map_iff. exists x. split; [reflexivity|].
+    apply zdedup_In. apply in_map_iff. exists (x, y). split; [reflexivity | exact Hy].
+Qed.
+
+Lemma rebuild2_spec m y k : kwf m -> (In (y, k) (rebuild2 m) <-> exists x, In (x, y) (kget k m)).
+Proof.
+  intros W. unfold rebuild2. rewrite in_flat_map. split.
+  - intros [[k0 c] [Hm H]]. apply in_map_iff in H. destruct H as [y0 [E Hy]]. cbn in E. inversion E; subst.
+    cbn [fst snd] in Hy. rewrite zdedup_In in Hy. apply in_map_iff in Hy. destruct Hy as [[x y1] [E1 Hp]]. cbn in *. subst y1.
+    exists x. unfold kget. rewrite (kwf_In_klookup _ _ _ W Hm). exact Hp.
+  - intros [x Hx]. unfold kget in Hx. destruct (klookup k m) as [c|] eqn:L; [|destruct Hx].
+    exists (k, c). split; [apply klookup_In; exact L|]. apply in_map_iff. exists y. split; [reflexivity|].
+    apply zdedup_In. apply in_map_iff. exists (x, y). split; [reflexivity | exact Hx].
+Qed.
+
+Lemma tmerge_revs b st st' :
+  tmerge b true st = Some st' ->
+  t_new st' = tver_empty /\
+  t_rev1 (t_delta st') = rebuild1 (t_map (t_delta st')) /\ t_rev2 (t_delta st') = rebuild2 (t_map (t_delta st')) /\
+  t_rev1 (t_total st') = punion (t_rev1 (t_delta st)) (t_rev1 (t_total st)) /\
+  t_rev2 (t_total st') = punion (t_rev2 (t_delta st)) (t_rev2 (t_total st)).
+Proof.
+  unfold tmerge, tmerge_gen. destruct (tmerge_delta_keys _ _ _ _ _) as [[[nm tm] ndm]|]; [|discriminate].
+  destruct (tmerge_new_keys _ _ _ _) as [[tm' ndm']|]; [|discriminate].
+  intros H. inversion H; subst. cbn. repeat split.
+Qed.
+
+Definition dk (st : tstate) (k : Z) : brel := kget k (t_map (t_delta st)).
+Definition tk (st : tstate) (k : Z) : brel := kget k (t_map (t_total st)).
+Definition nk (st : tstate) (k : Z) : brel := kget k (t_map (t_new st)).
+
+(* the reverse maps of delta and of total register exactly the (column value, key) pairs of their version *)
+Record RW (st : tstate) : Prop := {
+  rw_d1 : forall x k, In (x, k) (t_rev1 (t_delta st)) <-> exists y, In (x, y) (dk st k);
+  rw_d2 : forall y k, In (y, k) (t_rev2 (t_delta st)) <-> exists x, In (x, y) (dk st k);
+  rw_t1 : forall x k, In (x, k) (t_rev1 (t_total st)) <-> exists y, In (x, y) (tk st k);
+  rw_t2 : forall y k, In (y, k) (t_rev2 (t_total st)) <-> exists x, In (x, y) (tk st k) }.
+
+Lemma RW_init : RW tempty.
+Proof.
+  constructor; unfold dk, tk; cbn.
+  - intros x k. split; [intros [] | intros [? []]].
+  - intros y k. split; [intros [] | intros [? []]].
+  - intros x k. split; [intros [] | intros [? []]].
+  - intros y k. split; [intros [] | intros [? []]].
+Qed.
+
+Lemma RW_insert k x y st : RW st -> RW (fst (tinsert true (k, x, y) st)).
+Proof.
+  intros W. unfold tinsert.
+  destruct (tcontains (k, x, y) (t_total st) || tcontains (k, x, y) (t_delta st)); [exact W|].
+  unfold brel_insert. destruct (pmem (x, y) (kget k (t_map (t_new st)))); [exact W|].
+  cbn [fst]. destruct W as [d1 d2 t1 t2]. constructor; assumption.
+Qed.
+
+Lemma RW_merge b st st' : twf st -> RW st -> tmerge b true st = Some st' -> RW st'.
+Proof.
+  intros Wf [d1 d2 t1 t2] M.
+  destruct (tmerge_revs b st st' M) as (_ & Ed1 & Ed2 & Et1 & Et2).
+  destruct (tmerge_per_key b true st st' Wf M) as [[_ Wd' _] Hk].
+  assert (S : forall k, tk st' k = tk st k ++ dk st k).
+  { intros k. apply (bmerge_total_eq b _ _ (Hk k)). }
+  unfold dk, tk in *. constructor; unfold dk, tk.
+  - intros x k. rewrite Ed1. apply rebuild1_spec. exact Wd'.
+  - intros y k. rewrite Ed2. apply rebuild2_spec. exact Wd'.
+  - intros x k. rewrite Et1, punion_spec, S, d1, t1. split.
+    + intros [[y H]|[y H]]; exists y; apply in_or_app; auto.
+    + intros [y H]. apply in_app_or in H. destruct H as [H|H]; [right | left]; exists y; exact H.
+  - intros y k. rewrite Et2, punion_spec, S, d2, t2. split.
+    + intros [[x H]|[x H]]; exists x; apply in_or_app; auto.
+    + intros [x H]. apply in_app_or in H. destruct H as [H|H]; [right | left]; exists x; exact H.
+Qed.
+
+Lemma RW_restart st : RW st -> RW (trestart st).
+Proof.
+  intros [d1 d2 t1 t2]. unfold dk, tk in *.
+  constructor; unfold dk, tk, trestart; cbn [t_new t_delta t_total t_map t_rev1 t_rev2 tver_empty kget klookup].
+  - exact t1.
+  - exact t2.
+  - intros x k. split; [intros [] | intros [? []]].
+  - intros y k. split; [intros [] | intros [? []]].
+Qed.
+
+Theorem trun_RW b : forall ops st ins st' ins',
+  TJ b st ins -> RW st -> trun b true st ins ops = Some (st', ins') -> RW st'.
+Proof.
+  induction ops as [|o ops IH]; intros st ins st' ins' HT HW H; cbn [trun] in H.
+  - inversion H; subst. exact HW.
+  - destruct o as [k x y| |].
+    + eapply IH; [| |exact H].
+      * eapply (trun_inv b true [TIns k x y]); [exact HT | reflexivity].
+      * apply RW_insert. exact HW.
+    + destruct (tmerge b true st) as [st1|] eqn:M; [|discriminate].
+      eapply IH; [| |exact H].
+      * eapply (trun_inv b true [TMerge]); [exact HT | cbn; rewrite M; reflexivity].
+      * eapply RW_merge; [apply HT | exact HW | exact M].
+    + destruct (isnil (t_map (t_new st)) && isnil (t_map (t_delta st))) eqn:C; [|discriminate].
+      eapply IH; [| |exact H].
+      * eapply (trun_inv b true [TRestart]); [exact HT | cbn; rewrite C; reflexivity].
+      * apply RW_restart. exact HW.
+Qed.
+
+(* ---- consequences for every reachable state (both reverse maps present) *)
+
+Lemma kget_nonempty_lookup k m p : In p (kget k m) -> klookup k m <> None.
+Proof. unfold kget. destruct (klookup k m); [discriminate | intros []]. Qed.
+
+Theorem tv_i12_get1_panics v x12 :
+  tv_i12_get1 v x12 = None <->
+  exists k, In (fst x12, k) (t_rev1 v) /\ In (snd x12, k) (t_rev2 v) /\ klookup k (t_map v) = None.
+Proof.
+  unfold tv_i12_get1. rewrite opt_concat_None, in_map_iff. split.
+  - intros [k [E Hk]]. apply filter_In in Hk. destruct Hk as [H1 H2]. apply rev_keys_In in H1.
+    apply existsb_exists in H2. destruct H2 as [k2 [H2 E2]]. apply Z.eqb_eq in E2. subst k2. apply rev_keys_In in H2.
+    exists k. repeat split; auto. destruct (klookup k (t_map v)); [discriminate | reflexivity].
+  - intros [k (H1 & H2 & L)]. exists k. rewrite L. split; [reflexivity|].
+    apply filter_In. split; [apply rev_keys_In; exact H1|]. apply existsb_exists. exists k. split; [apply rev_keys_In; exact H2 | apply Z.eqb_refl].
+Qed.
+
+(* a version whose reverse maps are exact serves, through views [1], [2], [1,2], exactly its restriction to the key *)
+Lemma rev_views_exact_of v :
+  (forall x k, In (x, k) (t_rev1 v) <-> exists y, In (x, y) (kget k (t_map v))) ->
+  (forall y k, In (y, k) (t_rev2 v) <-> exists x, In (x, y) (kget k (t_map v))) ->
+  (forall x1, exists l, tv_i1_get1 v x1 = Some l /\ forall t, In t l <-> has v t /\ snd (fst t) = x1) /\
+  (forall x2, exists l, tv_i2_get1 v x2 = Some l /\ forall t, In t l <-> has v t /\ snd t = x2) /\
+  (forall x12, exists l, tv_i12_get1 v x12 = Some l /\ forall t, In t l <-> has v t /\ (snd (fst t), snd t) = x12).
+Proof.
+  intros t1 t2. split; [|split].
+  - intros x1. destruct (tv_i1_get1 v x1) as [l|] eqn:E.
+    + exists l. split; [reflexivity|]. intros t. rewrite (tv_i1_get1_spec _ _ _ E t). split; [tauto|].
+      intros [Hh Ex]. repeat split; auto. destruct t as [[k x] y]. cbn in *. subst x. apply t1. exists y. exact Hh.
+    + exfalso. apply tv_i1_get1_panics in E. destruct E as [k [Hk L]]. apply t1 in Hk. destruct Hk as [y Hy].
+      exact (kget_nonempty_lookup _ _ _ Hy L).
+  - intros x2. destruct (tv_i2_get1 v x2) as [l|] eqn:E.
+    + exists l. split; [reflexivity|]. intros t. rewrite (tv_i2_get1_spec _ _ _ E t). split; [tauto|].
+      intros [Hh Ex]. repeat split; auto. destruct t as [[k x] y]. cbn in *. subst y. apply t2. exists x. exact Hh.
+    + exfalso. apply tv_i2_get1_panics in E. destruct E as [k [Hk Hn]]. apply t2 in Hk. destruct Hk as [x Hx]. exact (Hn x Hx).
+  - intros x12. destruct (tv_i12_get1 v x12) as [l|] eqn:E.
+    + exists l. split; [reflexivity|]. intros t. rewrite (tv_i12_get1_spec _ _ _ E t). split; [tauto|].
+      intros [Hh Ex]. destruct t as [[k x] y]. cbn in *. subst x12. cbn. repeat split; auto; [apply t1; exists y | apply t2; exists x]; exact Hh.
+    + exfalso. apply tv_i12_get1_panics in E. destruct E as [k (H1 & _ & L)]. apply t1 in H1. destruct H1 as [y Hy].
+      exact (kget_nonempty_lookup _ _ _ Hy L).
+Qed.
+
+(* laws P4/P5 through the reverse-map indices, for BOTH versions, along every history: the views never panic and
+   return exactly the restriction of the version to the key *)
+Theorem rev_views_exact b ops st ins :
+  trun b true tempty [] ops = Some (st, ins) ->
+  forall v, v = t_total st \/ v = t_delta st ->
+  (forall x1, exists l, tv_i1_get1 v x1 = Some l /\ forall t, In t l <-> has v t /\ snd (fst t) = x1) /\
+  (forall x2, exists l, tv_i2_get1 v x2 = Some l /\ forall t, In t l <-> has v t /\ snd t = x2) /\
+  (forall x12, exists l, tv_i12_get1 v x12 = Some l /\ forall t, In t l <-> has v t /\ (snd (fst t), snd t) = x12).
+Proof.
+  intros H v Hv. pose proof (trun_RW b ops _ _ _ _ (TJ_init b) RW_init H) as [d1 d2 t1 t2]. unfold dk, tk in *.
+  destruct Hv as [->| ->]; apply rev_views_exact_of; assumption.
+Qed.
+
+(* the property for the ternary form, forward map, key by key: total + delta = transitive closure of the key's insertions *)
+Theorem trun_per_key_closure h ops st ins :
+  trun shipped_arefl h tempty [] ops = Some (st, ins) -> t_map (t_new st) = [] ->
+  forall k x y, In (x, y) (tk st k ++ dk st k) <-> tc (proj k ins) x y.
+Proof.
+  intros H En k x y. unfold tk, dk. rewrite (trun_per_key _ h ops st ins H En k (x, y)). apply cl_false_tc.
+Qed.
+
+(* ------------------------------------------------------------------ the behaviour before commit 0ce9ae6
+   (former finding F4), as a statement about the model with rebuild = false: delta's reverse maps were new's *)
+
+Fixpoint trun_old (b : bool) (st : tstate) (ins : list triple) (ops : list top) : option (tstate * list triple) :=
+  match ops with
+  | [] => Some (st, ins)
+  | TIns k x y :: rest => trun_old b (fst (tinsert true (k, x, y) st)) (ins ++ [(k, x, y)]) rest
+  | TMerge :: rest => match tmerge_gen b true false st with Some st' => trun_old b st' ins rest | None => None end
+  | TRestart :: rest =>
+      if isnil (t_map (t_new st)) && isnil (t_map (t_delta st)) then trun_old b (trestart st) ins rest else None
+  end.
 
 Definition rev_witness : list top := [TIns 0 1 2; TMerge; TIns 0 2 3; TMerge].
+Definition rev_witness2 : list top := [TIns 0 2 3; TMerge; TIns 0 1 2; TMerge].
 
-(* (0,1,3) is derived in the second merge, is in delta and not in total (the "added part" that every
-   delta view must serve), and view [1] of delta at key 1, view [1,2] at (1,3) do not serve it *)
-Theorem trrel_ternary_rev_refuted :
+(* (0,1,3) is derived in the second merge, is in delta and not in total (the added part every delta view must
+   serve); the old reverse maps did not register it: views [1] and [1,2] (resp. [2]) of delta missed it *)
+Theorem trrel_ternary_rev_refuted_before_fix :
   exists ops st ins t,
-    trun shipped_arefl true tempty [] ops = Some (st, ins) /\
+    trun_old shipped_arefl tempty [] ops = Some (st, ins) /\
     has (t_delta st) t /\ ~ has (t_total st) t /\
     (exists l, tv_i1_get1 (t_delta st) (snd (fst t)) = Some l /\ ~ In t l) /\
     (exists l, tv_i12_get1 (t_delta st) (snd (fst t), snd t) = Some l /\ ~ In t l).
 Proof.
   exists rev_witness.
-  destruct (trun shipped_arefl true tempty [] rev_witness) as [[st ins]|] eqn:E; [|vm_compute in E; discriminate].
+  destruct (trun_old shipped_arefl tempty [] rev_witness) as [[st ins]|] eqn:E; [|vm_compute in E; discriminate].
   exists st, ins, (0, 1, 3). vm_compute in E. inversion E; subst. clear E.
   split; [reflexivity|]. unfold has. cbn.
   split; [right; left; reflexivity|].
@@ -531,21 +751,25 @@ Proof.
   split; (exists []; split; [reflexivity | intros []]).
 Qed.
 
-(* the same history read through reverse_map2: insert (0,2,3) first, then (0,1,2): (0,1,3) enters delta with
-   3 registered in no reverse_map2 entry of delta *)
-Definition rev_witness2 : list top := [TIns 0 2 3; TMerge; TIns 0 1 2; TMerge].
-
-Theorem trrel_ternary_rev2_refuted :
+Theorem trrel_ternary_rev2_refuted_before_fix :
   exists ops st ins t,
-    trun shipped_arefl true tempty [] ops = Some (st, ins) /\
+    trun_old shipped_arefl tempty [] ops = Some (st, ins) /\
     has (t_delta st) t /\ ~ has (t_total st) t /\
     (exists l, tv_i2_get1 (t_delta st) (snd t) = Some l /\ ~ In t l).
 Proof.
   exists rev_witness2.
-  destruct (trun shipped_arefl true tempty [] rev_witness2) as [[st ins]|] eqn:E; [|vm_compute in E; discriminate].
+  destruct (trun_old shipped_arefl tempty [] rev_witness2) as [[st ins]|] eqn:E; [|vm_compute in E; discriminate].
   exists st, ins, (0, 1, 3). vm_compute in E. inversion E; subst. clear E.
   split; [reflexivity|]. unfold has. cbn.
   split; [right; left; reflexivity|].
   split; [intros [H|[]]; discriminate|].
   exists []; split; [reflexivity | intros []].
 Qed.
+
+(* the same witnesses on the current model: the views serve (0,1,3) *)
+Example rev_witness_now_served :
+  match trun shipped_arefl true tempty [] rev_witness with
+  | Some (st, _) => (tv_i1_get1 (t_delta st) 1, tv_i12_get1 (t_delta st) (1, 3))
+  | None => (None, None)
+  end = (Some [(0, 1, 3)], Some [(0, 1, 3)]).
+Proof. vm_compute. reflexivity. Qed.
